@@ -194,6 +194,21 @@ func gen(r *vc.Rand, thorough bool) (untimed, timed []job) {
 		add(pollHistory(r, vc.Pick(r, backends)), "gen:poll-restart-history")
 	}
 
+	// --- 3e. overlapping lookups: the storage reply of one lookup is held back while the tunnel is removed, lapses, is
+	// re-registered, ends; lookups that start afterwards (same node, other nodes) must see the state at their own start.
+	for _, b := range backends {
+		for _, cs := range overlapScenarios(r, b) {
+			add(cs, "gen:overlap-scenario")
+		}
+	}
+	nOv := 150
+	if thorough {
+		nOv = 2500
+	}
+	for i := 0; i < nOv; i++ {
+		add(overlapHistory(r, vc.Pick(r, backends)), "gen:overlap-history")
+	}
+
 	// --- 4. excluded points: strings that are not valid UTF-8 (JSON replaces the bytes)
 	for _, b := range backends {
 		bad := rec{tid: "t\xff\xfe", mp: "\xc3(", sec: "ok", src: "node-0", host: "\x80"}
@@ -234,6 +249,8 @@ func gen(r *vc.Rand, thorough bool) (untimed, timed []job) {
 			addT(b, "300,300,0", []string{fmtRec("reg", n, rc), "adv:500", look(m, "T"), fmtRec("reg", 1-n, rc2), look(m, "T"), "adv:150", look(m, "T"), "advw:500", look(m, "T")}, "gen:timed-reregister")
 			// bridge opened, never served, waiting period lapses; the bridge end afterwards is harmless
 			addT(b, "300,300,0", []string{fmtRec("open", n, rc), look(m, "T"), "adv:500", look(m, "T"), end(n, "T"), look(m, "T")}, "gen:timed-open")
+			// a lookup holds a lapsed record in its hand while the id is registered anew: its "expired" must not touch the new record
+			addT(b, "300,300,0", []string{fmtRec("reg", n, rc), "advw:500", slook(m, "T"), fmtRec("reg", 1-n, rc2), send(m, "T"), look(m, "T"), look((m+1)%3, "T")}, "gen:timed-overlap")
 			// the polling lookup meets a record whose waiting period lapsed on the nodes' clock only: "expired" means keep polling
 			addT(b, "300,300,0", []string{fmtRec("reg", n, rc), "advw:500", poll(m, "T", 1), fmtRec("reg", 1-n, rc2), pend(m, "T")}, "gen:timed-poll")
 		}
@@ -534,6 +551,71 @@ func pollHistory(r *vc.Rand, b string) string {
 			evs = append(evs, fmt.Sprintf("advs:%d", vc.Pick(r, []int{1, 29999, 30000})))
 		case 13:
 			evs = append(evs, rega(node, vc.Pick(r, nodes), vc.Pick(r, []string{"@0", "@1", "@2"})), fwd(r.Intn(3), tid))
+		}
+	}
+	return mk(b, "0,0,0", evs)
+}
+
+func slook(n int, tid string) string { return fmt.Sprintf("slook:%d:%s", n, hx(tid)) }
+func send(n int, tid string) string  { return fmt.Sprintf("send:%d:%s", n, hx(tid)) }
+
+func overlapScenarios(r *vc.Rand, b string) []string {
+	s := r.Intn(3)
+	f := (s + 1 + r.Intn(2)) % 3
+	o := 3 - s - f
+	sn := fmt.Sprintf("node-%d", s)
+	t1, t2 := fwdRec(r, "T1", sn), fwdRec(r, "T1", fmt.Sprintf("node-%d", o))
+	return []string{
+		// served, reply held; the tunnel is removed; later lookups (same node, other node) must not resolve it; the late reply still carries it
+		mk(b, "0,0,0", []string{fmtRec("reg", s, t1), slook(f, "T1"), rem(s, "T1"), look(f, "T1"), look(o, "T1"), look(f, "T1"), send(f, "T1"), look(f, "T1")}),
+		// a miss in flight; the tunnel is registered; later lookups find it
+		mk(b, "0,0,0", []string{slook(f, "T1"), fmtRec("reg", s, t1), look(f, "T1"), look(o, "T1"), send(f, "T1"), look(f, "T1")}),
+		// the key lapses on the Redis clock while the reply is held
+		mk(b, "0,0,0", []string{fmtRec("reg", s, t1), slook(f, "T1"), "advs:30000", look(f, "T1"), send(f, "T1"), look(f, "T1")}),
+		// replaced by a registration from another node while in flight: later lookups see the new record, the late reply the old one
+		mk(b, "0,0,0", []string{fmtRec("reg", s, t1), slook(f, "T1"), fmtRec("reg", o, t2), look(f, "T1"), send(f, "T1"), look(f, "T1"), look(s, "T1")}),
+		// the bridge ends while the reply is held; the target that arrives afterwards is not forwarded
+		mk(b, "0,0,0", []string{rega(s, sn, "@1"), fmtRec("open", s, t1), slook(f, "T1"), end(s, "T1"), fwd(f, "T1"), look(f, "T1"), send(f, "T1")}),
+		// lookups in flight on two nodes, removed, re-registered
+		mk(b, "0,0,0", []string{fmtRec("reg", s, t1), slook(f, "T1"), slook(o, "T1"), rem(f, "T1"), look(o, "T1"), fmtRec("reg", s, t2), send(o, "T1"), look(f, "T1"), send(f, "T1")}),
+		// the polling lookup runs while another lookup of the node is in flight
+		mk(b, "0,0,0", []string{fmtRec("reg", s, t1), slook(f, "T1"), rem(o, "T1"), poll(f, "T1", 1), fmtRec("reg", s, t2), pend(f, "T1"), send(f, "T1")}),
+		// in flight across a crash of the node; nothing in flight; empty id
+		mk(b, "0,0,0", []string{fmtRec("reg", s, t1), slook(f, "T1"), restart(f), send(f, "T1"), look(f, "T1"), send(o, "T9"), slook(f, ""), send(f, "")}),
+	}
+}
+
+func overlapHistory(r *vc.Rand, b string) string {
+	tids := []string{"T1", "T1", "T2", vc.Pick(r, idPool)}
+	nodes := []string{"node-0", "node-1", "node-2"}
+	n := 6 + r.Intn(10)
+	var evs []string
+	for k := 0; k < n; k++ {
+		node := r.Intn(3)
+		tid := vc.Pick(r, tids)
+		switch r.Intn(15) {
+		case 0, 1, 2:
+			evs = append(evs, fmtRec("reg", node, fwdRec(r, tid, vc.Pick(r, nodes))))
+		case 3:
+			evs = append(evs, fmtRec("open", node, fwdRec(r, tid, "")))
+		case 4, 5:
+			evs = append(evs, rem(node, tid))
+		case 6:
+			evs = append(evs, end(node, tid))
+		case 7, 8, 9:
+			evs = append(evs, slook(node, tid))
+		case 10, 11:
+			evs = append(evs, send(node, tid))
+		case 12, 13:
+			evs = append(evs, look(node, tid))
+		case 14:
+			evs = append(evs, fmt.Sprintf("advs:%d", vc.Pick(r, []int{1, 29999, 30000})))
+		}
+	}
+	// let every reply through in the end
+	for _, t := range tids[1:] {
+		for nd := 0; nd < 3; nd++ {
+			evs = append(evs, send(nd, t))
 		}
 	}
 	return mk(b, "0,0,0", evs)
